@@ -29,7 +29,9 @@ def universe():
              "http://LEMONDE.FR/a", "http://lemonde.fr:80/a", "lemonde.fr/a", "http://lemonde.fr/a/../a/b", "http://lemonde.fr/%61",
              # userinfo (with and without password), a special host, a host without known suffix (suffix_aware falls back to plain labels)
              "http://user@lemonde.fr/a", "http://user:pw@lemonde.fr/a", "http://user:@lemonde.fr/a", "http://localhost/a", "http://127.0.0.1:8080/a/b",
-             "http://intranet/a", "http://a.intranet/a/b"]
+             "http://intranet/a", "http://a.intranet/a/b",
+             # an ESCAPED pipe is data of a stem like any other escape (the raw one is the separator of serialized LRUs: C12 leaves it out)
+             "http://lemonde.fr/t/a%7Cb", "http://lemonde.fr/t/a%7cb/c"]
     return out + extra, core + extra
 
 
